@@ -27,6 +27,7 @@ from typing import Final
 import numpy
 from docstring_inheritance import GoogleDocstringInheritanceMeta
 from numpy import add as _add
+from numpy import asarray
 from numpy import atleast_2d
 from numpy import ndarray
 from numpy import subtract as _subtract
@@ -353,8 +354,36 @@ class _MultiplicationFunctionMaker(_OperationFunctionMaker):
         first_func = self._first_operand.func(input_value)
         second_func = self._second_operand.func(input_value)
         second_jac = self._second_operand._jac(input_value)
-
+        scale_rows = self.__scale_rows
         if self._operator == numpy.multiply:
-            return first_jac * second_func + second_jac * first_func
+            return scale_rows(first_jac, second_func) + scale_rows(
+                second_jac, first_func
+            )
 
-        return (first_jac * second_func - second_jac * first_func) / second_func**2
+        return scale_rows(
+            scale_rows(first_jac, second_func) - scale_rows(second_jac, first_func),
+            1.0 / asarray(second_func) ** 2,
+        )
+
+    @staticmethod
+    def __scale_rows(jac: NumberArray, factors: OutputType) -> NumberArray:
+        """Multiply the rows of a Jacobian by the components of an output value.
+
+        The i-th row of the Jacobian is multiplied by the i-th factor;
+        a unique row (resp. factor) is used for all the factors (resp. rows).
+
+        Args:
+            jac: The Jacobian,
+                either a 2D array shaped as ``(output_dim, input_dim)``
+                or a 1D array shaped as ``(input_dim,)``.
+            factors: The factors,
+                either a number or a 1D array shaped as ``(output_dim,)``.
+
+        Returns:
+            The Jacobian whose rows have been multiplied by the factors.
+        """
+        factors = asarray(factors)
+        if factors.ndim == 0 or (jac.ndim == 1 and factors.size == 1):
+            return jac * factors
+
+        return atleast_2d(jac) * factors.reshape((-1, 1))
